@@ -50,8 +50,8 @@ class Chooser:
     def __call__(self, site, xs):
         base = list(gen.canonical_order(site, xs))
         k = len(base)
-        if k < 2:
-            return base
+        if k < 2 or site == "candidate-set":
+            return base  # (the list built from that set is ordered again at the site "candidates", which IS a choice point)
         if k > MAXK:
             self.capped += 1
             return base
